@@ -97,6 +97,49 @@ func genC20(c *Ctx) {
 		}(g)
 	}
 	wg.Wait()
+	// ---- the SAME never-seen name met by all evaluations at the same moment: interning must be atomic (the name is
+	// convertible back as soon as any evaluation holds its hash)
+	rounds2 := 400
+	if c.Thorough() {
+		rounds2 = 4000
+	}
+	for i := 0; i < rounds2; i++ {
+		name := fmt.Sprintf("shared_%d_%d%s", c.Seed, i, strings.Repeat("y", []int{0, 10, 70, 200}[i%4]))
+		start := make(chan struct{})
+		var wg2 sync.WaitGroup
+		for g := 0; g < k; g++ {
+			wg2.Add(1)
+			go func(g int) {
+				defer wg2.Done()
+				<-start
+				impl := "ok"
+				func() {
+					defer func() {
+						if r := recover(); r != nil {
+							impl = "panic: " + fmt.Sprint(r)
+						}
+					}()
+					h := object.GetSymHash(name)
+					s, ok := object.SymHash2Str(h)
+					if !ok || s.(*object.PanStr).Value != name {
+						impl = "lookup-mismatch"
+					}
+					if g%2 == 0 {
+						e := object.NewEnv()
+						e.Set(h, object.BuiltInNil)
+						e.Items()
+					}
+				}()
+				rec := Rec{Impl: impl, Src: "all evaluations intern " + name + " at once, then convert it back", NT: true, Tags: []string{"shared-fresh-name"}}
+				if impl != "ok" {
+					rec.Oracle = "a name that an evaluation has just interned cannot be converted back: " + impl
+				}
+				results[g] = append(results[g], rec)
+			}(g)
+		}
+		close(start)
+		wg2.Wait()
+	}
 	for _, rs := range results {
 		for _, r := range rs {
 			c.Em.Emit(r)
